@@ -96,7 +96,7 @@ def gen_history(rng, desc, n_calls):
     for _ in range(n_calls):
         oi = rng.randrange(len(ops))
         if rng.random() < 0.75:
-            h.append(("all", oi, oagen.overrides(rng, ops[oi]) if rng.random() < 0.6 else None))
+            h.append(("all", oi, oagen.overrides(rng, ops[oi], arrays=True) if rng.random() < 0.6 else None))
         else:
             h.append(("one", oi, oagen.overwrites(rng, ops[oi]) if rng.random() < 0.6 else None))
     return h
@@ -235,11 +235,11 @@ def run(pid, tier):
     stats = {"calls": 0, "with_overrides": 0, "generate_one_valid": 0, "ops_with_body": 0, "error_calls": 0}
     lines, expect, meta = [], [], []
     for d in range(n_desc):
-        desc = oagen.description(rng, rng.choice([2, 3, 4]))
+        desc = oagen.description(rng, rng.choice([2, 3, 4]), arrays=True)
         hs = [gen_history(rng, desc, rng.choice([2, 3, 5, 8]))]
         if tier == "thorough" and d % 10 == 0:
             ops = fresh_ops(desc)
-            base = [("all", i, oagen.overrides(rng, ops[i]) if i % 2 == 0 else None) for i in range(len(ops))][:4]
+            base = [("all", i, oagen.overrides(rng, ops[i], arrays=True) if i % 2 == 0 else None) for i in range(len(ops))][:4]
             hs += [list(p) for p in itertools.permutations(base)]
         for h in hs:
             ck.count(json.dumps([desc, [list(map(str, c)) for c in h]], sort_keys=True, default=str), len(h) >= 2)
